@@ -218,3 +218,218 @@ Proof. exact C19.C19_success_resets. Qed.
 Theorem C19_invariant_reachable : forall port os,
   c19_domain os = true -> C19.Inv port (C19.resolver_states port (rentry_init, rr_init) os).
 Proof. exact C19.C19_inv_reachable. Qed.
+
+(* ------------------------------------------------------------------ C14 *)
+From Model Require Import Wire Uri Hdr Codec SpecC14.
+From Model.proofs Require C14_uri C14_hdr C14_via.
+
+(* for every well-formed abstract value (no size bound) the decoder extracts exactly what the
+   reference text denotes (components and accessors), the encoder gives the text back byte for
+   byte, and decoding the encoding and encoding again is stable: [codec_obs] is that whole
+   observation, [expected_obs] what an exact lossless codec must produce *)
+Theorem C14_sipuri : forall u, wf_sipuri u = true ->
+  codec_obs parse_sip_uri sip_uri_print obs_sip_uri (rp_sipuri u) = expected_obs (rp_sipuri u) (x_sipuri u).
+Proof. exact C14_uri.C14_sipuri. Qed.
+Theorem C14_addrspec : forall a, wf_addr a = true ->
+  codec_obs parse_addr_spec addr_spec_print obs_addr_spec (rp_addr a) = expected_obs (rp_addr a) (x_addr a).
+Proof. exact C14_uri.C14_addrspec. Qed.
+Theorem C14_nameaddr : forall n, wf_nameaddr n = true ->
+  codec_obs parse_name_addr name_addr_print obs_name_addr (rp_nameaddr n) = expected_obs (rp_nameaddr n) (x_nameaddr n).
+Proof. exact C14_uri.C14_nameaddr. Qed.
+Theorem C14_route : forall l, l <> [] -> forallb wf_relem l = true ->
+  codec_obs parse_route route_print (e_list obs_route_param) (rp_route l) = expected_obs (rp_route l) (e_list x_relem l).
+Proof. exact C14_hdr.C14_route. Qed.
+Theorem C14_recordroute : forall l, l <> [] -> forallb wf_relem l = true ->
+  codec_obs parse_record_route route_print (e_list obs_route_param) (rp_route l) = expected_obs (rp_route l) (e_list x_relem l).
+Proof. exact C14_hdr.C14_recordroute. Qed.
+Theorem C14_fromto : forall f, wf_fromto f = true ->
+  codec_obs parse_fromto fromto_print obs_fromto (rp_fromto f) = expected_obs (rp_fromto f) (x_fromto f).
+Proof. exact C14_hdr.C14_fromto. Qed.
+Theorem C14_via : forall l, l <> [] -> forallb wf_via l = true ->
+  codec_obs parse_via via_print (e_list obs_via_param) (rp_via l) = expected_obs (rp_via l) (e_list x_via1 l).
+Proof. exact C14_via.C14_via. Qed.
+Theorem C14_cseq : forall c, wf_cseq c = true ->
+  codec_obs parse_cseq cseq_print obs_cseq (rp_cseq c) = expected_obs (rp_cseq c) (x_cseq c).
+Proof. exact C14_via.C14_cseq. Qed.
+(* the judge the check applies to implementation observations accepts exactly that *)
+Theorem C14_judge_exact : forall e o, o = e -> judge_C14 e o = true.
+Proof. exact C14_uri.judge_C14_of_eq. Qed.
+
+(* the pre-fix decoders/encoders violate it (computed witnesses) *)
+Theorem C14_sipuri_legacy_refuted :
+  exists u, wf_sipuri u = true /\ rp_sipuri u = s2b "sip:h;foo;lr;x=1" /\
+    parse_sip_uri_legacy (rp_sipuri u) <> Ok (C14_uri.embed_sipuri u) /\
+    codec_obs parse_sip_uri_legacy sip_uri_print obs_sip_uri (rp_sipuri u) <> expected_obs (rp_sipuri u) (x_sipuri u).
+Proof. exact C14_uri.C14_sipuri_legacy_refuted. Qed.
+Theorem C14_route_legacy_refuted :
+  exists r, wf_relem r = true /\ rp_relem r = s2b "<sip:h;lr>;a=1;b" /\
+    route_param_print_legacy (C14_hdr.embed_relem r) <> rp_relem r /\
+    parse_route_param (route_param_print_legacy (C14_hdr.embed_relem r)) <> Ok (C14_hdr.embed_relem r).
+Proof. exact C14_hdr.C14_route_legacy_refuted. Qed.
+Theorem C14_fromto_legacy_refuted :
+  exists f, wf_fromto f = true /\ rp_fromto f = s2b "tel:+1;tag=x" /\
+    parse_fromto_legacy (rp_fromto f) <> Ok (C14_hdr.embed_fromto f) /\
+    codec_obs parse_fromto_legacy fromto_print obs_fromto (rp_fromto f) <> expected_obs (rp_fromto f) (x_fromto f).
+Proof. exact C14_hdr.C14_fromto_legacy_refuted. Qed.
+(* the two tracked known findings, outside the well-formedness domain *)
+Theorem C14_ipv6_refuted :
+  exists text u, text = s2b "sip:[::1]:5060" /\ parse_sip_uri text = Ok u /\
+    u_host u = s2b "[" /\ u_port u = 0%Z /\ sip_uri_print u = s2b "sip:[" /\ sip_uri_print u <> text.
+Proof. exact C14_uri.C14_ipv6_refuted. Qed.
+Theorem C14_user_semicolon_refuted :
+  exists text u, text = s2b "sip:a;b@h:5070" /\ parse_sip_uri text = Ok u /\
+    u_host u = s2b "a" /\ u_user u = [] /\ u_port u = 0%Z /\ sip_uri_get_port u = 5060%Z /\
+    u_params u = [ {| k_key := s2b "b@h:5070"; k_val := [] |} ] /\ sip_uri_print u = text.
+Proof. exact C14_uri.C14_user_semicolon_refuted. Qed.
+
+(* ------------------------------------------------------------------ C16 *)
+From Model Require Import Message SpecC16.
+From Model.proofs Require C16.
+
+(* direction independence, for ALL byte strings (equal URIs and equal tags included) *)
+Theorem C16_symmetric : forall c t1 a1 t2 a2, dialog_string c t1 a1 t2 a2 = dialog_string c t2 a2 t1 a1.
+Proof. exact C16.C16_symmetric. Qed.
+Theorem C16_legacy_refuted : exists c t1 a t2,
+  t1 <> t2 /\ dialog_string_legacy c t1 a t2 a <> dialog_string_legacy c t2 a t1 a.
+Proof. exact C16.C16_legacy_refuted. Qed.
+(* same Call-ID and the same two (tag, URI) halves, whichever is in From: same identifier *)
+Theorem C16_same_id : forall a b, c16_same a b = true -> C16.c16_id a = C16.c16_id b.
+Proof. exact C16.C16_same_id. Qed.
+(* discrimination: the Call-ID unconditionally; one tag or one URI under the separator
+   hypothesis sep_ok (a boolean, evaluated on every generated case) *)
+Theorem C16_callid_discriminates : forall c c' t1 a1 t2 a2,
+  c <> c' -> dialog_string c t1 a1 t2 a2 <> dialog_string c' t1 a1 t2 a2.
+Proof. exact C16.C16_callid_discriminates. Qed.
+Theorem C16_discriminates : forall a b,
+  cm_has a = true -> cm_has b = true -> c16_one_change a b = true -> c16_same a b = false ->
+  C16.sep_ok a b = true -> C16.c16_id a <> C16.c16_id b.
+Proof. exact C16.C16_discriminates. Qed.
+(* sep_ok holds whenever the two tags of each message differ and are '-'-free (any URIs) *)
+Theorem C16_sep_ok_realistic : forall a b,
+  c16_one_change a b = true -> C16.half_ok a = true -> C16.half_ok b = true -> C16.sep_ok a b = true.
+Proof. exact C16.half_ok_sep_ok. Qed.
+Theorem C16_half_ok_distinct_tags : forall m,
+  ~ In "-"%char (cm_ta m) -> ~ In "-"%char (cm_tb m) -> cm_ta m <> cm_tb m -> C16.half_ok m = true.
+Proof. exact C16.half_ok_distinct_tags. Qed.
+(* outside it the identifier is not discriminating: the tracked finding K3 *)
+Theorem C16_K3_refuted : exists a b,
+  cm_has a = true /\ cm_has b = true /\
+  cm_callid a = cm_callid b /\ cm_ta a = cm_ta b /\ cm_tb a = cm_tb b /\ cm_ub a = cm_ub b /\ cm_ua a <> cm_ua b /\
+  c16_one_change a b = true /\ c16_same a b = false /\ C16.sep_ok a b = false /\ C16.c16_id a = C16.c16_id b.
+Proof. exact C16.C16_K3_refuted. Qed.
+(* the group judge accepts the model on every group in the domain *)
+Theorem C16_judged : forall (ms : list c16_msg),
+  (forall a b, In a ms -> In b ms -> cm_has a = true -> cm_has b = true ->
+               c16_one_change a b = true -> c16_same a b = false -> C16.sep_ok a b = true) ->
+  judge_C16 (map (fun m => (m, if cm_has m then Some (C16.c16_id m) else None)) ms) = None.
+Proof. exact C16.C16_judged. Qed.
+(* a message lacking either tag belongs to no dialog; one with both gets exactly the
+   identifier of its Call-ID and halves, whatever else the headers carry *)
+Theorem C16_no_tag_from : forall m m1 f, get_from m = Ok (m1, f) -> fromto_tag f = None -> get_dialog m = Err.
+Proof. exact C16.C16_no_tag_from. Qed.
+Theorem C16_no_tag_to : forall m m1 f m2 t,
+  get_from m = Ok (m1, f) -> get_to m1 = Ok (m2, t) -> fromto_tag t = None -> get_dialog m = Err.
+Proof. exact C16.C16_no_tag_to. Qed.
+Theorem C16_get_dialog_inv : forall m m2 d, get_dialog m = Ok (m2, d) ->
+  exists cid m1 f t ftag ttag,
+    get_call_id m = Ok cid /\ get_from m = Ok (m1, f) /\ get_to m1 = Ok (m2, t) /\
+    fromto_tag f = Some ftag /\ fromto_tag t = Some ttag /\
+    d = dialog_string cid ftag (dialog_addr (fromto_addr_spec f)) ttag (dialog_addr (fromto_addr_spec t)).
+Proof. exact C16.C16_get_dialog_inv. Qed.
+Theorem C16_message_symmetric : forall m m' cid m1 f m2 t m1' f' m2' t',
+  get_call_id m = Ok cid -> get_call_id m' = Ok cid ->
+  get_from m = Ok (m1, f) -> get_to m1 = Ok (m2, t) ->
+  get_from m' = Ok (m1', f') -> get_to m1' = Ok (m2', t') ->
+  fromto_tag f' = fromto_tag t -> fromto_tag t' = fromto_tag f ->
+  dialog_addr (fromto_addr_spec f') = dialog_addr (fromto_addr_spec t) ->
+  dialog_addr (fromto_addr_spec t') = dialog_addr (fromto_addr_spec f) ->
+  rmap snd (get_dialog m) = rmap snd (get_dialog m').
+Proof. exact C16.C16_message_symmetric. Qed.
+(* decorations do not matter: the half a From/To value contributes is (tag, URI core) of
+   the abstract value, whatever display name, URI parameters/headers, header parameters and
+   name-addr/addr-spec form it was rendered with (with C14_fromto) *)
+Theorem C16_half_of_rendering : forall f, wf_fromto f = true ->
+  parse_fromto (rp_fromto f) = Ok (C14_hdr.embed_fromto f) /\
+  fromto_tag (C14_hdr.embed_fromto f) = a_get (s2b "tag") (af_params f) /\
+  dialog_addr (fromto_addr_spec (C14_hdr.embed_fromto f)) = x_dialog_addr (C14_hdr.a_ft_addr f).
+Proof.
+  intros f H. split; [exact (C14_hdr.parse_fromto_rp f H)|].
+  split; [exact (C14_hdr.fromto_tag_embed f) | exact (C14_hdr.fromto_dialog_addr_embed f H)].
+Qed.
+
+(* ------------------------------------------------------------------ C20 *)
+From Model Require Import SendFault SpecC20.
+From Model.proofs Require C20.
+
+(* every send from every well-formed state, any fault script: the trace satisfies the judge *)
+Theorem C20_judged_client : forall f w, C20.fo_wf f (w_next w) ->
+  let '(_, _, tr, ok) := failover_send f w in judge_C20_send tr ok = true.
+Proof. exact C20.C20_judged_client. Qed.
+Theorem C20_judged_backend : forall conn w, C20.b_wf conn (w_next w) ->
+  let '(_, _, tr, ok) := tcp_backend_send conn w in judge_C20_send tr ok = true.
+Proof. exact C20.C20_judged_backend. Qed.
+(* along any sequence of sends with any per-send dial results: what the extracted runner
+   prints is judged by the count-based judge that is also applied to the real code *)
+Theorem C20_obs_judged_client : forall plans f w,
+  C20.fo_wf f (w_next w) -> forallb judge_C20_obs (C20.client_obs plans f w) = true.
+Proof. exact C20.C20_obs_judged_client_strong. Qed.
+Theorem C20_obs_judged_backend : forall plans conn w,
+  C20.b_wf conn (w_next w) -> forallb judge_C20_obs (C20.backend_obs plans conn w) = true.
+Proof. exact C20.C20_obs_judged_backend_strong. Qed.
+Theorem C20_client_obs_printed : forall plans f w,
+  sendfault_client plans f w = flat_map e_obs (C20.client_obs plans f w).
+Proof. exact C20.C20_client_obs_printed. Qed.
+Theorem C20_backend_obs_printed : forall plans c w,
+  sendfault_backend plans c w = flat_map e_obs (C20.backend_obs plans c w).
+Proof. exact C20.C20_backend_obs_printed. Qed.
+Theorem C20_trace_judge_implies_obs : forall next tr ok,
+  C20.okwrites_below next tr -> judge_C20_send tr ok = true -> judge_C20_obs (obs_of_trace next tr ok) = true.
+Proof. exact C20.C20_trace_judge_implies_obs. Qed.
+(* success = the whole message written exactly once, as the last write of the call *)
+Theorem C20_success_means_written : forall f w f' w' tr, failover_send f w = (f', w', tr, true) ->
+  exists pre c, tr = pre ++ [EWrite c true] /\ (forall c', ~ In (EWrite c' true) pre).
+Proof. exact C20.C20_success_means_written. Qed.
+Theorem C20_error_means_unwritten : forall f w f' w' tr,
+  failover_send f w = (f', w', tr, false) -> forall c, ~ In (EWrite c true) tr.
+Proof. exact C20.C20_error_means_unwritten. Qed.
+Theorem C20_no_dup : forall f w f' w' tr ok,
+  failover_send f w = (f', w', tr, ok) -> (List.length (filter ev_is_okwrite tr) <= 1)%nat.
+Proof. exact C20.C20_no_dup. Qed.
+Theorem C20_no_dup_backend : forall conn w conn' w' tr ok,
+  tcp_backend_send conn w = (conn', w', tr, ok) -> (List.length (filter ev_is_okwrite tr) <= 1)%nat.
+Proof. exact C20.C20_no_dup_backend. Qed.
+(* cached connection fails on write, reconnectable path available: the same call writes the
+   message once on a fresh connection; later sends go straight to it *)
+Theorem C20_failover : forall f w p c s rest,
+  C20.w_wf w -> C20.fo_wf f (w_next w) -> fo_primary f = Some p -> tc_conn p = Some c -> C20.next_write c w = false ->
+  fo_secondary f = Some {| tc_conn := None; tc_reconnectable := true |} ->
+  w_dials w = Some s :: rest -> hd true s = true ->
+  failover_send f w =
+    ({| fo_primary := None; fo_secondary := Some {| tc_conn := Some (w_next w); tc_reconnectable := true |} |},
+     C20.after_write (w_next w) (C20.after_dial (C20.after_write c w)),
+     [EWrite c false; EClose c; EDial (Some (w_next w)); EWrite (w_next w) true], true)
+  /\ c <> w_next w.
+Proof. exact C20.C20_failover. Qed.
+Theorem C20_later_direct : forall f w p c s rest,
+  C20.w_wf w -> C20.fo_wf f (w_next w) -> fo_primary f = Some p -> tc_conn p = Some c -> C20.next_write c w = false ->
+  fo_secondary f = Some {| tc_conn := None; tc_reconnectable := true |} ->
+  w_dials w = Some s :: rest -> hd true s = true ->
+  forall f' w' tr ok, failover_send f w = (f', w', tr, ok) ->
+  forall w2, (w_next w' <= w_next w2)%nat ->
+  forall f2 w3 tr2 ok2, failover_send f' w2 = (f2, w3, tr2, ok2) ->
+  (forall e, In e tr2 -> ~ In c (C20.ev_ids e)) /\
+  (exists b rest2, tr2 = EWrite (w_next w) b :: rest2) /\
+  (C20.next_write (w_next w) w2 = true -> tr2 = [EWrite (w_next w) true] /\ ok2 = true /\ f2 = f').
+Proof. exact C20.C20_later_direct. Qed.
+(* a refusing destination yields an error after at most one dial attempt, nothing written *)
+Theorem C20_refused : forall f w f' w' tr ok,
+  C20.fo_wf f (w_next w) -> C20.dial_refused w -> C20.primary_id f = None -> C20.secondary_id f = None ->
+  failover_send f w = (f', w', tr, ok) ->
+  ok = false /\ (tr = [] \/ tr = [EDial None]) /\
+  (List.length (filter ev_is_dial tr) <= 2)%nat /\ filter ev_is_write tr = [] /\
+  w_conns w' = w_conns w /\ w_next w' = w_next w /\ C20.primary_id f' = None /\ C20.secondary_id f' = None.
+Proof. exact C20.C20_refused. Qed.
+Theorem C20_refused_backend : forall w conn' w' tr ok,
+  C20.dial_refused w -> C20.dial_refused (C20.after_dial w) -> tcp_backend_send None w = (conn', w', tr, ok) ->
+  ok = false /\ tr = [EDial None; EDial None] /\ conn' = None /\ w_conns w' = w_conns w /\ w_next w' = w_next w.
+Proof. exact C20.C20_refused_backend. Qed.
